@@ -1,7 +1,1135 @@
-//! C16: correspondence + oracle runs (sub-commands `c16` / `c16-*`).
+//! C16: routers forward along the route; TTL bounds every packet's life — on the real
+//! `ArpRouter` / `Ipv4` / `Arp` / `Pci` / `Network`.
+//!
+//! A case = a generated topology (lines / stars / rings of 1..5 routers joining 2..6 subnets,
+//! 1..2 hosts per subnet, correct / missing / looping / black-hole static routes) given as op
+//! lines (`topo`, `host`, `router`), followed by *units*:
+//!   `send …`            one datagram, run to quiescence; the answer lists EVERY frame put on a
+//!                       network in its time window (ARP and IPv4), every tap delivery of an IPv4
+//!                       frame and every application delivery, canonically sorted
+//!   `bsend …`* `flush`  several datagrams handed to their stacks within a few milliseconds (scheduler
+//!                       sampling); the answer lists the IPv4 frames, tap deliveries and
+//!                       application deliveries only (which ARP frames occur depends on the
+//!                       interleaving; the model quantifies over it)
+//! `kind=udp` datagrams go through `Udp::open_for_sending` + `Session::send` (TTL fixed by
+//! `Ipv4HeaderBuilder::new`); `kind=raw` datagrams are built with the real `Ipv4Header::serialize`
+//! (any TTL / protocol / flags), resolved with the real `Arp::resolve` and handed to `send_pci`.
+//! Everything runs on a paused-clock runtime in worker child processes (a panic of the router ends
+//! the process: the parent then re-runs the prefix of the case that survives).
+use crate::scaffold::*;
+use elvis::applications::ArpRouter;
+use elvis_core::{
+    machine::PciSlot,
+    message::Message,
+    protocols::{
+        arp::{
+            arp_parsing::{ArpPacket, Operation},
+            subnetting::{Ipv4Mask, Ipv4Net, SubnetInfo},
+        },
+        ipv4::{ipv4_parsing::Ipv4Header, Ipv4, Ipv4Address},
+        udp::verif::build_udp_header,
+        AddressPair, Arp, Pci,
+    },
+    IpTable,
+};
 use hcommon::*;
+use std::any::TypeId;
+use std::collections::BTreeMap;
+use std::sync::Arc;
+
+const RULE: &str = "topologies: line / star / hub / ring of 1..5 ArpRouters joining 2..6 /24 subnets, 1..2 hosts per subnet (Udp+Ipv4+Arp(SubnetInfo)+Pci+Recorder), static routes correct or mutated (missing entry, wrong neighbour = loop, default route, black-hole gateway, /32 override, wrongly-direct); units: sequential sends (udp path TTL 30, raw path TTL 0..255, protocols 17/6/1, fragments, wrong ports, unknown destinations) each run to quiescence and compared frame-for-frame (ARP + IPv4) with the model, and bursts of simultaneous sends compared on IPv4 frames / tap deliveries / application deliveries; paused-clock current_thread runtime; non-trivial = a datagram crossed >= 1 router (>= 2 IPv4 frames with its token); distinct = hash of the case's op lines";
+
+const T0_US: u64 = 1_000;
+const WINDOW_US: u64 = 8_000_000;
+const QUIET_US: u64 = 4_000_000;
+/// frames per case after which the harness cuts a storm off
+const FRAME_CAP: usize = 20_000;
+
+// ------------------------------------------------------------------------------------------
+// case description (= the op lines)
+// ------------------------------------------------------------------------------------------
+
+#[derive(Clone, Debug)]
+struct HostD {
+    net: usize,
+    mac: u64,
+    ip: u32,
+    mask: u32,
+    gw: u32,
+    port: u16,
+}
+#[derive(Clone, Debug)]
+struct RouteD {
+    addr: u32,
+    len: u32,
+    gw: Option<u32>,
+    slot: u32,
+}
+#[derive(Clone, Debug)]
+struct RouterD {
+    /// (net, mac, ip) per slot
+    slots: Vec<(usize, u64, u32)>,
+    routes: Vec<RouteD>,
+}
+#[derive(Clone, Debug)]
+enum NodeD {
+    Host(HostD),
+    Router(RouterD),
+}
+#[derive(Clone, Debug)]
+struct SendD {
+    tok: u32,
+    h: usize,
+    udp: bool,
+    src: u32,
+    dst: u32,
+    ttl: u8,
+    proto: u8,
+    id: u16,
+    tos: u8,
+    flags: u8,
+    off: u16,
+    /// transport payload (for kind=udp: UDP header + data, as the real builder produces it)
+    pay: Vec<u8>,
+    /// generator's ground truth: this datagram must reach the application of `expect` exactly once
+    expect: Option<usize>,
+}
+#[derive(Clone, Debug)]
+enum Unit {
+    One(SendD),
+    Burst(Vec<SendD>),
+}
+#[derive(Clone, Debug, Default)]
+struct CaseD {
+    mtus: Vec<u16>,
+    lat: Vec<u64>,
+    nodes: Vec<NodeD>,
+    units: Vec<Unit>,
+    /// no route mutation anywhere (delivery is then required by the oracle)
+    clean: bool,
+}
+
+fn ip_s(a: u32) -> String {
+    fmt_addr(a)
+}
+
+fn send_line(word: &str, s: &SendD) -> String {
+    let exp = s.expect.map(|e| e.to_string()).unwrap_or("-".into());
+    if s.udp {
+        format!("{} tok={} h={} kind=udp src={} dst={} pay={} expect={}", word, s.tok, s.h, ip_s(s.src), ip_s(s.dst), hex(&s.pay), exp)
+    } else {
+        format!(
+            "{} tok={} h={} kind=raw src={} dst={} ttl={} proto={} id={} tos={} flags={} off={} pay={} expect={}",
+            word, s.tok, s.h, ip_s(s.src), ip_s(s.dst), s.ttl, s.proto, s.id, s.tos, s.flags, s.off, hex(&s.pay), exp
+        )
+    }
+}
+
+impl CaseD {
+    fn to_lines(&self) -> Vec<String> {
+        let mut l = vec![format!(
+            "topo nets={} mtus={} lat={} clean={}",
+            self.mtus.len(),
+            self.mtus.iter().map(|m| m.to_string()).collect::<Vec<_>>().join(","),
+            self.lat.iter().map(|m| m.to_string()).collect::<Vec<_>>().join(","),
+            self.clean as u8
+        )];
+        for (i, n) in self.nodes.iter().enumerate() {
+            match n {
+                NodeD::Host(h) => l.push(format!("host {} net={} mac={} ip={} mask={} gw={} port={}", i, h.net, h.mac, ip_s(h.ip), h.mask, ip_s(h.gw), h.port)),
+                NodeD::Router(r) => l.push(format!(
+                    "router {} slots={} routes={}",
+                    i,
+                    r.slots.iter().map(|(n, m, a)| format!("{}:{}:{}", n, m, ip_s(*a))).collect::<Vec<_>>().join(","),
+                    if r.routes.is_empty() {
+                        "-".to_string()
+                    } else {
+                        r.routes.iter().map(|e| format!("{}/{}/{}/{}", ip_s(e.addr), e.len, e.gw.map(ip_s).unwrap_or("-".into()), e.slot)).collect::<Vec<_>>().join(";")
+                    }
+                )),
+            }
+        }
+        for u in &self.units {
+            match u {
+                Unit::One(s) => l.push(send_line("send", s)),
+                Unit::Burst(v) => {
+                    for s in v {
+                        l.push(send_line("bsend", s));
+                    }
+                    l.push("flush".into());
+                }
+            }
+        }
+        l
+    }
+
+    fn parse(lines: &[String]) -> Result<CaseD, String> {
+        let mut c = CaseD::default();
+        let mut burst: Vec<SendD> = vec![];
+        for line in lines {
+            let w: Vec<&str> = line.split_whitespace().collect();
+            if w.is_empty() {
+                continue;
+            }
+            let kv: BTreeMap<&str, &str> = w.iter().filter_map(|x| x.split_once('=')).collect();
+            let bad = || format!("bad line `{}`", line);
+            let num = |k: &str| -> Result<u64, String> { kv.get(k).and_then(|v| v.parse().ok()).ok_or_else(bad) };
+            let addr = |k: &str| -> Result<u32, String> { kv.get(k).and_then(|v| parse_addr(v)).ok_or_else(bad) };
+            match w[0] {
+                "case" => {}
+                "topo" => {
+                    c.mtus = kv.get("mtus").ok_or_else(bad)?.split(',').map(|x| x.parse().unwrap_or(u16::MAX)).collect();
+                    c.lat = kv.get("lat").ok_or_else(bad)?.split(',').map(|x| x.parse().unwrap_or(1000)).collect();
+                    c.clean = kv.get("clean").map(|v| *v == "1").unwrap_or(false);
+                }
+                "host" => c.nodes.push(NodeD::Host(HostD {
+                    net: num("net")? as usize,
+                    mac: num("mac")?,
+                    ip: addr("ip")?,
+                    mask: num("mask")? as u32,
+                    gw: addr("gw")?,
+                    port: num("port")? as u16,
+                })),
+                "router" => {
+                    let mut r = RouterD { slots: vec![], routes: vec![] };
+                    for s in kv.get("slots").ok_or_else(bad)?.split(',') {
+                        let p: Vec<&str> = s.split(':').collect();
+                        if p.len() != 3 {
+                            return Err(bad());
+                        }
+                        r.slots.push((p[0].parse().map_err(|_| bad())?, p[1].parse().map_err(|_| bad())?, parse_addr(p[2]).ok_or_else(bad)?));
+                    }
+                    let rt = kv.get("routes").ok_or_else(bad)?;
+                    if *rt != "-" {
+                        for e in rt.split(';') {
+                            let p: Vec<&str> = e.split('/').collect();
+                            if p.len() != 4 {
+                                return Err(bad());
+                            }
+                            r.routes.push(RouteD {
+                                addr: parse_addr(p[0]).ok_or_else(bad)?,
+                                len: p[1].parse().map_err(|_| bad())?,
+                                gw: if p[2] == "-" { None } else { Some(parse_addr(p[2]).ok_or_else(bad)?) },
+                                slot: p[3].parse().map_err(|_| bad())?,
+                            });
+                        }
+                    }
+                    c.nodes.push(NodeD::Router(r));
+                }
+                "send" | "bsend" => {
+                    let udp = kv.get("kind") == Some(&"udp");
+                    let s = SendD {
+                        tok: num("tok")? as u32,
+                        h: num("h")? as usize,
+                        udp,
+                        src: addr("src")?,
+                        dst: addr("dst")?,
+                        ttl: if udp { 0 } else { num("ttl")? as u8 },
+                        proto: if udp { 17 } else { num("proto")? as u8 },
+                        id: if udp { 0 } else { num("id")? as u16 },
+                        tos: if udp { 0 } else { num("tos")? as u8 },
+                        flags: if udp { 0 } else { num("flags")? as u8 },
+                        off: if udp { 0 } else { num("off")? as u16 },
+                        pay: unhex(kv.get("pay").ok_or_else(bad)?),
+                        expect: kv.get("expect").and_then(|v| v.parse().ok()),
+                    };
+                    if w[0] == "send" {
+                        c.units.push(Unit::One(s));
+                    } else {
+                        burst.push(s);
+                    }
+                }
+                "flush" => c.units.push(Unit::Burst(std::mem::take(&mut burst))),
+                _ => return Err(bad()),
+            }
+        }
+        if c.nodes.is_empty() || c.mtus.is_empty() {
+            return Err("no topology".into());
+        }
+        Ok(c)
+    }
+}
+
+// ------------------------------------------------------------------------------------------
+// generator
+// ------------------------------------------------------------------------------------------
+
+fn net_base(n: usize) -> u32 {
+    (10u32 << 24) | ((n as u32) << 8)
+}
+
+struct Graph {
+    /// routers: list of nets per router (slot order)
+    routers: Vec<Vec<usize>>,
+    nets: usize,
+}
+
+impl Graph {
+    fn router_ip(&self, r: usize, net: usize) -> u32 {
+        net_base(net) + 1 + r as u32
+    }
+    /// BFS over routers (adjacent = share a net): for router `r`, per destination net:
+    /// None = unreachable, Some((None, slot, 0)) = attached, Some((Some(next router), slot, dist))
+    fn routes(&self, r: usize) -> Vec<Option<(Option<usize>, usize, usize)>> {
+        let mut out = vec![None; self.nets];
+        // distance of every router from r, with first hop (router, via net)
+        let n = self.routers.len();
+        let mut dist = vec![usize::MAX; n];
+        let mut first: Vec<Option<(usize, usize)>> = vec![None; n];
+        dist[r] = 0;
+        let mut q = std::collections::VecDeque::new();
+        q.push_back(r);
+        while let Some(x) = q.pop_front() {
+            for y in 0..n {
+                if dist[y] != usize::MAX {
+                    continue;
+                }
+                if let Some(shared) = self.routers[x].iter().find(|a| self.routers[y].contains(a)) {
+                    dist[y] = dist[x] + 1;
+                    first[y] = if x == r { Some((y, *shared)) } else { first[x] };
+                    q.push_back(y);
+                }
+            }
+        }
+        for d in 0..self.nets {
+            if let Some(slot) = self.routers[r].iter().position(|a| *a == d) {
+                out[d] = Some((None, slot, 0));
+                continue;
+            }
+            let mut best: Option<(usize, usize)> = None; // (dist, router)
+            for y in 0..n {
+                if dist[y] != usize::MAX && self.routers[y].contains(&d) && best.map(|b| dist[y] < b.0).unwrap_or(true) {
+                    best = Some((dist[y], y));
+                }
+            }
+            if let Some((dd, y)) = best {
+                let (nh, via) = first[y].unwrap();
+                let slot = self.routers[r].iter().position(|a| *a == via).unwrap();
+                out[d] = Some((Some(nh), slot, dd));
+            }
+        }
+        out
+    }
+}
+
+fn gen_case(rng: &mut Rng) -> CaseD {
+    // ---- shape ----
+    let shape = rng.below(4);
+    let g = match shape {
+        0 => {
+            // line: router i joins net i and i+1
+            let r = rng.range(1, 5) as usize;
+            Graph { routers: (0..r).map(|i| vec![i, i + 1]).collect(), nets: r + 1 }
+        }
+        1 => {
+            // star: one router joins all nets
+            let s = rng.range(2, 6) as usize;
+            Graph { routers: vec![(0..s).collect()], nets: s }
+        }
+        2 => {
+            // hub: net 0 in the middle, router i joins net 0 and leaf net i+1
+            let r = rng.range(1, 5) as usize;
+            Graph { routers: (0..r).map(|i| vec![0, i + 1]).collect(), nets: r + 1 }
+        }
+        _ => {
+            // ring: router i joins net i and net (i+1) mod r
+            let r = rng.range(2, 5) as usize;
+            Graph { routers: (0..r).map(|i| vec![i, (i + 1) % r]).collect(), nets: r }
+        }
+    };
+    let nets = g.nets;
+    let mut c = CaseD { mtus: vec![u16::MAX; nets], lat: vec![], nodes: vec![], units: vec![], clean: true };
+    for _ in 0..nets {
+        c.lat.push(*rng.pick(&[200u64, 1000, 1000, 3000]));
+    }
+    if rng.chance(1, 4) {
+        for m in c.mtus.iter_mut() {
+            *m = 1500;
+        }
+    }
+    // ---- machines: hosts first (machine order decides MACs), then routers ----
+    let mut next_mac = vec![0u64; nets];
+    let mut hosts: Vec<usize> = vec![]; // node indices
+    let mut budget = 9usize.saturating_sub(g.routers.len());
+    for n in 0..nets {
+        let k = if budget > nets - n { rng.range(1, 2) as usize } else { 1 };
+        for j in 0..k {
+            // default gateway: a router attached to this net
+            let att: Vec<usize> = (0..g.routers.len()).filter(|r| g.routers[*r].contains(&n)).collect();
+            let gw = if att.is_empty() { net_base(n) + 1 } else { g.router_ip(*rng.pick(&att), n) };
+            let mask = if rng.chance(1, 10) { 32 } else { 24 };
+            let mac = next_mac[n];
+            next_mac[n] += 1;
+            hosts.push(c.nodes.len());
+            c.nodes.push(NodeD::Host(HostD { net: n, mac, ip: net_base(n) + 10 + j as u32, mask, gw, port: 5000 + (c.nodes.len() as u16) }));
+            budget = budget.saturating_sub(1);
+        }
+    }
+    let first_router = c.nodes.len();
+    for (r, rn) in g.routers.iter().enumerate() {
+        let mut slots = vec![];
+        for n in rn {
+            slots.push((*n, next_mac[*n], g.router_ip(r, *n)));
+            next_mac[*n] += 1;
+        }
+        let mut routes = vec![];
+        for (d, e) in g.routes(r).iter().enumerate() {
+            if let Some((nh, slot, _)) = e {
+                let via = rn[*slot];
+                routes.push(RouteD { addr: net_base(d), len: 24, gw: nh.map(|y| g.router_ip(y, via)), slot: *slot as u32 });
+            }
+        }
+        c.nodes.push(NodeD::Router(RouterD { slots, routes }));
+    }
+    // ---- route mutations ----
+    let mutate = rng.chance(1, 2);
+    let burst_case = rng.chance(1, 4);
+    if mutate {
+        c.clean = false;
+        let nm = rng.range(1, 3);
+        for _ in 0..nm {
+            let r = rng.below(g.routers.len() as u64) as usize;
+            let rn = g.routers[r].clone();
+            let NodeD::Router(rd) = &mut c.nodes[first_router + r] else { unreachable!() };
+            let kind = rng.below(if burst_case { 5 } else { 7 });
+            match kind {
+                0 => {
+                    // missing entry
+                    if !rd.routes.is_empty() {
+                        let i = rng.below(rd.routes.len() as u64) as usize;
+                        rd.routes.remove(i);
+                    }
+                }
+                1 => {
+                    // wrong neighbour (loops in lines and rings): send a remote net to another adjacent router
+                    let remote: Vec<usize> = (0..rd.routes.len()).filter(|i| rd.routes[*i].gw.is_some()).collect();
+                    if !remote.is_empty() {
+                        let i = *rng.pick(&remote);
+                        let slot = rng.below(rn.len() as u64) as usize;
+                        let via = rn[slot];
+                        let others: Vec<usize> = (0..g.routers.len()).filter(|y| *y != r && g.routers[*y].contains(&via)).collect();
+                        if !others.is_empty() {
+                            rd.routes[i].gw = Some(g.router_ip(*rng.pick(&others), via));
+                            rd.routes[i].slot = slot as u32;
+                        }
+                    }
+                }
+                2 => {
+                    // default route to a neighbour (unknown destinations wander)
+                    let slot = rng.below(rn.len() as u64) as usize;
+                    let via = rn[slot];
+                    let others: Vec<usize> = (0..g.routers.len()).filter(|y| *y != r && g.routers[*y].contains(&via)).collect();
+                    if !others.is_empty() {
+                        rd.routes.push(RouteD { addr: 0, len: 0, gw: Some(g.router_ip(*rng.pick(&others), via)), slot: slot as u32 });
+                    }
+                }
+                3 => {
+                    // black-hole gateway: an address nobody owns on that net
+                    if !rd.routes.is_empty() {
+                        let i = rng.below(rd.routes.len() as u64) as usize;
+                        let via = rn[rd.routes[i].slot as usize];
+                        rd.routes[i].gw = Some(net_base(via) + 200);
+                    }
+                }
+                4 => {
+                    // /32 override of one host with a (possibly wrong) neighbour
+                    let hidx = *rng.pick(&hosts);
+                    let NodeD::Host(hd) = c.nodes[hidx].clone() else { unreachable!() };
+                    let NodeD::Router(rd) = &mut c.nodes[first_router + r] else { unreachable!() };
+                    let slot = rng.below(rn.len() as u64) as usize;
+                    let via = rn[slot];
+                    let others: Vec<usize> = (0..g.routers.len()).filter(|y| *y != r && g.routers[*y].contains(&via)).collect();
+                    if !others.is_empty() {
+                        rd.routes.push(RouteD { addr: hd.ip, len: 32, gw: Some(g.router_ip(*rng.pick(&others), via)), slot: slot as u32 });
+                    }
+                }
+                5 => {
+                    // wrongly direct: a remote net declared attached to some slot
+                    let remote: Vec<usize> = (0..rd.routes.len()).filter(|i| rd.routes[*i].gw.is_some()).collect();
+                    if !remote.is_empty() {
+                        let i = *rng.pick(&remote);
+                        rd.routes[i].gw = None;
+                    }
+                }
+                _ => {
+                    // wrong slot for an attached net
+                    let local: Vec<usize> = (0..rd.routes.len()).filter(|i| rd.routes[*i].gw.is_none()).collect();
+                    if !local.is_empty() && rn.len() > 1 {
+                        let i = *rng.pick(&local);
+                        rd.routes[i].slot = (rd.routes[i].slot + 1) % rn.len() as u32;
+                    }
+                }
+            }
+        }
+    }
+    // ---- sends ----
+    let nsend = rng.range(2, 6) as usize;
+    let mut sends = vec![];
+    for t in 0..nsend {
+        let tok = (t + 1) as u32;
+        let hs = *rng.pick(&hosts);
+        let NodeD::Host(src) = c.nodes[hs].clone() else { unreachable!() };
+        // destination
+        let dk = rng.below(20);
+        let (dst, dhost): (u32, Option<usize>) = if dk < 14 {
+            // another host, other subnet preferred
+            let other: Vec<usize> = hosts.iter().cloned().filter(|x| *x != hs).collect();
+            let far: Vec<usize> = other.iter().cloned().filter(|x| matches!(&c.nodes[*x], NodeD::Host(h) if h.net != src.net)).collect();
+            let pool = if !far.is_empty() && rng.chance(4, 5) { far } else { other };
+            if pool.is_empty() {
+                (net_base(src.net) + 99, None)
+            } else {
+                let d = *rng.pick(&pool);
+                let NodeD::Host(dh) = &c.nodes[d] else { unreachable!() };
+                (dh.ip, Some(d))
+            }
+        } else if dk < 16 {
+            (net_base(rng.below(nets as u64) as usize) + 99, None) // nobody there
+        } else if dk < 18 {
+            (net_base(nets + 3) + 10, None) // unknown subnet
+        } else if dk < 19 {
+            // a router's own address
+            let r = rng.below(g.routers.len() as u64) as usize;
+            (g.router_ip(r, g.routers[r][0]), None)
+        } else {
+            (src.ip, Some(hs)) // itself
+        };
+        let udp = rng.chance(1, 3);
+        let dport = match dhost {
+            Some(d) => {
+                let NodeD::Host(dh) = &c.nodes[d] else { unreachable!() };
+                if rng.chance(1, 12) { dh.port + 100 } else { dh.port }
+            }
+            None => 7,
+        };
+        let dlen = *rng.pick(&[2usize, 2, 3, 8, 20]);
+        let mut data = vec![(tok >> 8) as u8, tok as u8];
+        data.extend(rng.bytes(dlen - 2));
+        let proto: u8 = if udp { 17 } else { *rng.pick(&[17u8, 17, 17, 17, 17, 17, 6, 1]) };
+        let pay = if proto == 17 {
+            let mut p = build_udp_header(Ipv4Address::from(src.ip), 4000 + tok as u16, Ipv4Address::from(dst), dport, data.iter().cloned(), data.len()).expect("udp header");
+            p.extend_from_slice(&data);
+            p
+        } else {
+            let mut p = rng.bytes(8);
+            p.extend_from_slice(&data);
+            p
+        };
+        // routers between the subnets (ground truth on the unmutated graph)
+        let hops_needed: Option<usize> = dhost.and_then(|d| {
+            let NodeD::Host(dh) = &c.nodes[d] else { unreachable!() };
+            if dh.net == src.net {
+                Some(0)
+            } else {
+                // the source's gateway router, then BFS distance from it
+                let gr = (0..g.routers.len()).find(|r| g.routers[*r].contains(&src.net) && g.router_ip(*r, src.net) == src.gw)?;
+                g.routes(gr)[dh.net].map(|e| e.2 + 1)
+            }
+        });
+        let ttl: u8 = if udp {
+            30
+        } else {
+            let k = hops_needed.unwrap_or(2) as u8;
+            match rng.below(14) {
+                0 => if rng.chance(1, 3) { 0 } else { 1 },
+                1 => 1,
+                2 => 2,
+                3 => k.max(1),
+                4 | 5 => k + 1,
+                6 => k.saturating_sub(1).max(1),
+                7 => 3,
+                8 => 255,
+                9 => 64,
+                10 => rng.range(4, 12) as u8,
+                11 => k + 2,
+                _ => 30,
+            }
+        };
+        let (flags, off) = if !udp && rng.chance(1, 15) { (*rng.pick(&[1u8, 1, 3]), *rng.pick(&[0u16, 0, 5])) } else if !udp && rng.chance(1, 6) { (2, 0) } else { (0, 0) };
+        let same_subnet_by_mask = {
+            let m = Ipv4Mask::from_bitcount(src.mask).to_u32();
+            (src.ip & m) == (dst & m)
+        };
+        let expect = match (dhost, hops_needed) {
+            (Some(d), Some(k))
+                if c.clean
+                    && d != hs
+                    && proto == 17
+                    && flags & 1 == 0
+                    && off == 0
+                    && (ttl as usize) > k
+                    && matches!(&c.nodes[d], NodeD::Host(dh) if dh.port == dport)
+                    // a /32 host mask sends even same-subnet traffic to the gateway, which routes it back
+                    && (same_subnet_by_mask == (k == 0) || (k == 0 && (ttl as usize) > 1)) =>
+            {
+                Some(d)
+            }
+            _ => None,
+        };
+        sends.push(SendD { tok, h: hs, udp, src: src.ip, dst, ttl, proto, id: if udp { 0 } else { 1000 + tok as u16 }, tos: if !udp && rng.chance(1, 8) { 0x10 } else { 0 }, flags, off, pay, expect });
+    }
+    if burst_case {
+        let split = rng.below(sends.len() as u64) as usize;
+        let tail = sends.split_off(split);
+        for s in sends {
+            c.units.push(Unit::One(s));
+        }
+        if !tail.is_empty() {
+            c.units.push(Unit::Burst(tail));
+        }
+    } else {
+        for s in sends {
+            c.units.push(Unit::One(s));
+        }
+    }
+    c
+}
+
+// ------------------------------------------------------------------------------------------
+// executor: the real stack
+// ------------------------------------------------------------------------------------------
+
+fn datagram_bytes(s: &SendD) -> Vec<u8> {
+    let h = Ipv4Header {
+        ihl: 5,
+        type_of_service: s.tos.into(),
+        total_length: (20 + s.pay.len()) as u16,
+        identification: s.id,
+        fragment_offset: s.off,
+        flags: s.flags.into(),
+        time_to_live: s.ttl,
+        protocol: s.proto,
+        checksum: 0,
+        source: Ipv4Address::from(s.src),
+        destination: Ipv4Address::from(s.dst),
+    };
+    let mut b = h.serialize().expect("header builds");
+    b.extend_from_slice(&s.pay);
+    b
+}
+
+fn send_action(at: u64, s: &SendD, host: &HostD) -> Action {
+    if s.udp {
+        // UDP header is rebuilt by the real UdpSession: hand it the data and the ports of `pay`
+        let sport = u16::from_be_bytes([s.pay[0], s.pay[1]]);
+        let dport = u16::from_be_bytes([s.pay[2], s.pay[3]]);
+        Action {
+            at: Some(at),
+            kind: ActionKind::Open { local: Ep::new(s.src, sport), remote: Ep::new(s.dst, dport), listen: false, payloads: vec![s.pay[8..].to_vec()] },
+        }
+    } else {
+        let bytes = datagram_bytes(s);
+        let local = Ipv4Address::from(host.ip);
+        let remote = Ipv4Address::from(s.dst);
+        Action {
+            at: Some(at),
+            kind: ActionKind::Custom(Arc::new(move |ctx: Ctx| {
+                let bytes = bytes.clone();
+                Box::pin(async move {
+                    let arp = ctx.machine.protocol::<Arp>().expect("host has Arp");
+                    set_cause(None);
+                    if let Ok(mac) = arp.resolve(AddressPair { local, remote }, 0, ctx.machine.clone()).await {
+                        let _ = ctx.machine.protocol::<Pci>().unwrap().open(0).send_pci(Message::new(bytes), Some(mac), TypeId::of::<Ipv4>());
+                    }
+                })
+            })),
+        }
+    }
+}
+
+/// time at which unit `u` starts
+fn unit_start(u: usize) -> u64 {
+    T0_US + u as u64 * WINDOW_US
+}
+
+fn build_scenario(c: &CaseD, upto: usize) -> Scenario {
+    let nets: Vec<NetSpec> = (0..c.mtus.len()).map(|i| NetSpec { mtu: if c.mtus[i] == u16::MAX { None } else { Some(c.mtus[i]) }, lat_us: (c.lat[i], 0), thr: (0, 0) }).collect();
+    let mut machines = vec![];
+    for (i, n) in c.nodes.iter().enumerate() {
+        match n {
+            NodeD::Host(h) => {
+                let mut script = vec![Action { at: None, kind: ActionKind::Listen(Ep::new(h.ip, h.port)) }];
+                for (ui, u) in c.units.iter().enumerate().take(upto) {
+                    match u {
+                        Unit::One(s) if s.h == i => script.push(send_action(unit_start(ui), s, h)),
+                        Unit::Burst(v) => {
+                            for (j, s) in v.iter().enumerate() {
+                                if s.h == i {
+                                    // within a few hundred microseconds of each other
+                                    script.push(send_action(unit_start(ui) + (j as u64 % 3) * 150, s, h));
+                                }
+                            }
+                        }
+                        _ => {}
+                    }
+                }
+                machines.push(MachineSpec {
+                    nets: vec![h.net],
+                    arp: false, // added by `extra` with its SubnetInfo
+                    udp: true,
+                    routes: vec![Route { addr: h.ip, mask_len: 32, slot: 0, mac: None }],
+                    apps: vec![AppSpec { n: 0, script }],
+                    ..Default::default()
+                });
+            }
+            NodeD::Router(r) => machines.push(MachineSpec {
+                nets: r.slots.iter().map(|s| s.0).collect(),
+                arp: false,
+                routes: r.slots.iter().map(|s| Route { addr: s.2, mask_len: 32, slot: 0, mac: None }).collect(),
+                ..Default::default()
+            }),
+        }
+    }
+    Scenario { nets, machines, mode: RtMode::Paused, duration_us: unit_start(upto.min(c.units.len())) + 500_000 }
+}
+
+fn item_ip(net: usize, smac: u64, dmac: Option<u64>, bytes: &[u8]) -> Option<(String, u32, u8, Ipv4Header)> {
+    let h = Ipv4Header::from_bytes(bytes.iter().cloned()).ok()?;
+    let pay = &bytes[20.min(bytes.len())..];
+    let tok = if pay.len() >= 10 { u16::from_be_bytes([pay[8], pay[9]]) as u32 } else { 0 };
+    let s = format!(
+        "W:n{}:{}>{}:t{}:ttl{}:{}.{}.{}.{}.{}.{}.{}.{}:{}",
+        net,
+        smac,
+        dmac.map(|m| m.to_string()).unwrap_or("*".into()),
+        tok,
+        h.time_to_live,
+        h.type_of_service.as_u8(),
+        h.total_length,
+        h.identification,
+        h.flags.as_u8(),
+        h.fragment_offset,
+        h.protocol,
+        h.source.to_u32(),
+        h.destination.to_u32(),
+        hex(pay)
+    );
+    Some((s, tok, h.time_to_live, h))
+}
+
+fn item_arp(net: usize, smac: u64, dmac: Option<u64>, bytes: &[u8]) -> Option<String> {
+    let p = ArpPacket::from_bytes(bytes.iter().cloned()).ok()?;
+    Some(match p.oper {
+        Operation::Request => format!("A:n{}:{}>*:q:{}:{}:{}", net, smac, p.sender_ip.to_u32(), p.sender_mac, p.target_ip.to_u32()),
+        Operation::Reply => format!(
+            "A:n{}:{}>{}:p:{}:{}:{}:{}",
+            net,
+            smac,
+            dmac.map(|m| m.to_string()).unwrap_or("*".into()),
+            p.sender_ip.to_u32(),
+            p.sender_mac,
+            p.target_ip.to_u32(),
+            p.target_mac
+        ),
+    })
+}
+
+fn panic_site_name(file: &str, text: &str) -> String {
+    let f = file.rsplit('/').next().unwrap_or("");
+    let t = text.trim();
+    if f == "arp_router.rs" && t.starts_with("ipv4_header.time_to_live -=") {
+        "panic:sub:ArpRouter::demux:time_to_live".into()
+    } else if f == "arp_router.rs" && t.contains(".expect(\"failed to send\")") {
+        "panic:expect:ArpRouter::demux:send_pci".into()
+    } else if f == "arp_router.rs" && t.contains("self.local_ips[slot as usize]") {
+        "panic:index:ArpRouter::demux:local_ips".into()
+    } else if f == "ipv4_parsing.rs" && t.contains("self.total_length - BASE_OCTETS") {
+        "panic:sub:Ipv4Header::serialize:total_length".into()
+    } else if f == "pci.rs" && t.contains("self.sessions.get(slot as usize).unwrap()") {
+        "panic:unwrap:Pci::open".into()
+    } else {
+        format!("panic:other:{}:{}", f, t.replace(' ', "_"))
+    }
+}
+
+/// Run the first `upto` units of the case on the real stack; one (op, answer) pair per op line.
+fn run_case(c: &CaseD, upto: usize) -> CaseReport {
+    let mut rep = CaseReport::default();
+    let lines = c.to_lines();
+    let sc = build_scenario(c, upto);
+    // MAC bookkeeping of the description must agree with the real Pci
+    let nodes = c.nodes.clone();
+    let extra = move |idx: usize, m: elvis_core::Machine, _log: &Arc<Log>| -> elvis_core::Machine {
+        match &nodes[idx] {
+            NodeD::Host(h) => m.with(Arp::new().preconfig_subnet(
+                Ipv4Address::from(h.ip),
+                SubnetInfo { mask: Ipv4Mask::from_bitcount(h.mask), default_gateway: Ipv4Address::from(h.gw) },
+            )),
+            NodeD::Router(r) => {
+                let mut table: IpTable<(Option<Ipv4Address>, PciSlot)> = IpTable::new();
+                for e in &r.routes {
+                    table.add(Ipv4Net::new(Ipv4Address::from(e.addr), Ipv4Mask::from_bitcount(e.len)), (e.gw.map(Ipv4Address::from), e.slot));
+                }
+                m.with(Arp::new()).with(ArpRouter::new(table, r.slots.iter().map(|s| Ipv4Address::from(s.2)).collect()))
+            }
+        }
+    };
+    // a frame storm (only a broken router produces one) is cut off so that the run ends
+    let frames = Arc::new(std::sync::atomic::AtomicUsize::new(0));
+    let planner: Planner = {
+        let frames = frames.clone();
+        Arc::new(move |_w: &WireSend| {
+            if frames.fetch_add(1, std::sync::atomic::Ordering::Relaxed) >= FRAME_CAP {
+                elvis_core::network::VerifFramePlan::Drop
+            } else {
+                elvis_core::network::VerifFramePlan::Deliver
+            }
+        })
+    };
+    let res = run_scenario_with(&sc, Some(planner), &extra);
+    if frames.load(std::sync::atomic::Ordering::Relaxed) > FRAME_CAP {
+        rep.fail(format!("more than {} frames were put on the networks in one case: a frame storm (the harness dropped the rest)", FRAME_CAP), "frame-storm");
+    }
+    // topology lines
+    let mut li = 0;
+    let mac_ok = c.nodes.iter().enumerate().all(|(i, n)| match n {
+        NodeD::Host(h) => res.macs[i] == vec![h.mac],
+        NodeD::Router(r) => res.macs[i] == r.slots.iter().map(|s| s.1).collect::<Vec<_>>(),
+    });
+    while li < lines.len() && !(lines[li].starts_with("send ") || lines[li].starts_with("bsend ") || lines[li] == "flush") {
+        let w = lines[li].split_whitespace().next().unwrap_or("").to_string();
+        rep.line(lines[li].clone(), if mac_ok { w } else { format!("{} mac-mismatch", w) });
+        li += 1;
+    }
+    if !mac_ok {
+        rep.fail("the MACs assumed by the case description differ from the real Pci sessions (harness bookkeeping)", "harness mac bookkeeping");
+    }
+    // which machine owns (net, mac)
+    let mut tap_owner: BTreeMap<(usize, u64), usize> = BTreeMap::new();
+    for (i, n) in c.nodes.iter().enumerate() {
+        match n {
+            NodeD::Host(h) => {
+                tap_owner.insert((h.net, h.mac), i);
+            }
+            NodeD::Router(r) => {
+                for s in &r.slots {
+                    tap_owner.insert((s.0, s.1), i);
+                }
+            }
+        }
+    }
+    let is_router = |i: usize| matches!(c.nodes[i], NodeD::Router(_));
+    let mut crossed = false;
+    for (ui, u) in c.units.iter().enumerate() {
+        let (sends, burst): (Vec<&SendD>, bool) = match u {
+            Unit::One(s) => (vec![s], false),
+            Unit::Burst(v) => (v.iter().collect(), true),
+        };
+        if ui >= upto {
+            break;
+        }
+        let (t_lo, t_hi) = (unit_start(ui), unit_start(ui + 1));
+        let mut items: Vec<String> = vec![];
+        // per token: wire frames (time order), router tap deliveries, app deliveries
+        let mut wires: BTreeMap<u32, Vec<(u8, Ipv4Header, Vec<u8>, u64)>> = BTreeMap::new();
+        let mut rtaps: BTreeMap<u32, usize> = BTreeMap::new();
+        let mut apps: BTreeMap<u32, Vec<(usize, Vec<u8>, Option<Ep>)>> = BTreeMap::new();
+        let mut last_wire_t = 0u64;
+        for e in res.events.iter().filter(|e| e.t_us >= t_lo && e.t_us < t_hi) {
+            match &e.ev {
+                Ev::Wire { net, to: None, smac, dst, target, bytes, .. } => {
+                    last_wire_t = last_wire_t.max(e.t_us);
+                    match target {
+                        Target::Ipv4 => {
+                            if let Some((s, tok, ttl, h)) = item_ip(*net, *smac, *dst, bytes) {
+                                items.push(s);
+                                wires.entry(tok).or_default().push((ttl, h, bytes[20..].to_vec(), *smac));
+                            } else {
+                                items.push(format!("W:n{}:unparsed:{}", net, hex(bytes)));
+                            }
+                        }
+                        Target::Arp => {
+                            if !burst {
+                                items.push(item_arp(*net, *smac, *dst, bytes).unwrap_or_else(|| format!("A:n{}:unparsed", net)));
+                            }
+                            rep.count("frames.arp");
+                        }
+                        t => items.push(format!("X:n{}:{}", net, t.name())),
+                    }
+                }
+                Ev::Wire { net, to: Some(mac), target: Target::Ipv4, bytes, .. } => {
+                    if let (Some(owner), Some((_, tok, ttl, _))) = (tap_owner.get(&(*net, *mac)), item_ip(*net, 0, None, bytes)) {
+                        items.push(format!("D:{}:t{}:ttl{}", owner, tok, ttl));
+                        if is_router(*owner) {
+                            *rtaps.entry(tok).or_default() += 1;
+                        }
+                    }
+                }
+                Ev::Demux { machine, payload, local, .. } => {
+                    let tok = if payload.len() >= 2 { u16::from_be_bytes([payload[0], payload[1]]) as u32 } else { 0 };
+                    items.push(format!("P:{}:{}:t{}:{}", machine, local.map(|l| l.port).unwrap_or(0), tok, hex(payload)));
+                    apps.entry(tok).or_default().push((*machine, payload.clone(), *local));
+                }
+                _ => {}
+            }
+        }
+        items.sort();
+        let answer = if items.is_empty() { "r -".to_string() } else { format!("r {}", items.join(" ")) };
+        if burst {
+            for s in &sends {
+                rep.line(send_line("bsend", s), "q");
+            }
+            rep.line("flush", answer);
+            rep.count("units.burst");
+        } else {
+            rep.line(send_line("send", sends[0]), answer);
+            rep.count("units.send");
+        }
+        // ---------------- native oracle: the property itself ----------------
+        for s in &sends {
+            let what = |m: &str| format!("{} [token {} from machine {} to {}, {}]", m, s.tok, s.h, fmt_addr(s.dst), if s.udp { "udp path".to_string() } else { format!("raw ttl {}", s.ttl) });
+            let w = wires.get(&s.tok).cloned().unwrap_or_default();
+            // the stack chooses the initial TTL of a udp-path datagram: it is what the source emits
+            let t0 = if s.udp { w.first().map(|x| x.0 as u32).unwrap_or(30) } else { s.ttl as u32 };
+            let life = t0.max(1) as usize;
+            rep.count(&format!("hops.{}", w.len().min(12)));
+            if w.len() >= 2 {
+                crossed = true;
+            }
+            // TTL decremented by exactly one per hop, never multiplied
+            for (i, (ttl, h, pay, _)) in w.iter().enumerate() {
+                if *ttl as i64 != t0 as i64 - i as i64 {
+                    rep.fail(what(&format!("frame #{} of the datagram carries TTL {} (expected {} = initial TTL minus hops so far): TTLs on the wire {:?}", i, ttl, t0 as i64 - i as i64, w.iter().map(|x| x.0).collect::<Vec<_>>())), "ttl-not-decremented-by-one-per-hop");
+                    break;
+                }
+                // payload and every header field but TTL / checksum unchanged
+                if pay != &s.pay
+                    || h.source.to_u32() != s.src
+                    || h.destination.to_u32() != s.dst
+                    || h.protocol != s.proto
+                    || h.total_length as usize != 20 + s.pay.len()
+                    || (!s.udp && (h.identification != s.id || h.type_of_service.as_u8() != s.tos || h.flags.as_u8() != s.flags || h.fragment_offset != s.off))
+                {
+                    rep.fail(what(&format!("frame #{} differs from the datagram that was sent in payload or in a header field other than TTL/checksum", i)), "datagram-changed-in-transit");
+                    break;
+                }
+            }
+            // bounded life
+            if w.len() > life {
+                rep.fail(what(&format!("{} frames of one datagram on the networks, more than its initial TTL", w.len())), "more-frames-than-initial-ttl");
+            }
+            if rtaps.get(&s.tok).cloned().unwrap_or(0) > life {
+                rep.fail(what(&format!("{} router hops, more than the initial TTL", rtaps[&s.tok])), "more-hops-than-initial-ttl");
+            }
+            // delivered to the destination host only, unchanged, at most once
+            let a = apps.get(&s.tok).cloned().unwrap_or_default();
+            for (m, data, _) in &a {
+                let ok_host = matches!(&c.nodes[*m], NodeD::Host(h) if h.ip == s.dst);
+                if !ok_host {
+                    rep.fail(what(&format!("delivered to the application of machine {} which does not own the destination address", m)), "delivered-to-third-party");
+                }
+                if s.proto == 17 && data[..] != s.pay[8..] {
+                    rep.fail(what("application received different data"), "payload-changed");
+                }
+            }
+            if a.len() > 1 {
+                rep.fail(what(&format!("delivered {} times", a.len())), "delivered-more-than-once");
+            }
+            if let Some(d) = s.expect {
+                rep.count("expect.delivery");
+                if a.len() != 1 || a[0].0 != d {
+                    rep.fail(what(&format!("routes are correct and the TTL suffices, but the datagram was not delivered to machine {} (deliveries: {:?})", d, a.iter().map(|x| x.0).collect::<Vec<_>>())), "not-delivered-on-correct-routes");
+                }
+            }
+            if !a.is_empty() {
+                rep.count("delivered");
+            }
+        }
+        // silence: nothing on any network in the tail of the window
+        if last_wire_t >= t_hi - QUIET_US {
+            rep.fail(format!("unit {} of the case: a frame was put on a network {} us after the send, the networks did not fall silent", ui, last_wire_t - t_lo), "no-silence");
+        }
+    }
+    rep.nontrivial = crossed;
+    rep
+}
+
+// ------------------------------------------------------------------------------------------
+// worker / parent
+// ------------------------------------------------------------------------------------------
+
+/// spec: `gen <seed> <upto>` or `replay <upto>\n<op lines>`
+fn case_of_spec(spec: &str) -> Result<(CaseD, usize), String> {
+    let mut it = spec.lines();
+    let head: Vec<&str> = it.next().unwrap_or("").split_whitespace().collect();
+    match head.as_slice() {
+        ["gen", seed, upto] => {
+            let mut rng = Rng::new(seed.parse().map_err(|_| "bad seed")?);
+            let c = gen_case(&mut rng);
+            // through the text form, so that replays execute exactly what was generated
+            let c = CaseD::parse(&c.to_lines())?;
+            Ok((c, upto.parse().map_err(|_| "bad upto")?))
+        }
+        ["replay", upto] => {
+            let lines: Vec<String> = it.map(|s| s.to_string()).collect();
+            Ok((CaseD::parse(&lines)?, upto.parse().map_err(|_| "bad upto")?))
+        }
+        _ => Err(format!("bad spec `{}`", spec)),
+    }
+}
+
+fn worker_case(spec: &str) -> CaseReport {
+    match case_of_spec(spec) {
+        Ok((c, upto)) => run_case(&c, upto),
+        Err(e) => {
+            let mut r = CaseReport::default();
+            r.line(spec.lines().next().unwrap_or(""), format!("bad-op {}", e));
+            r
+        }
+    }
+}
+
+/// number of op lines before the first unit, and op-line count per unit
+fn layout(lines: &[String]) -> (usize, Vec<usize>) {
+    let mut head = 0;
+    while head < lines.len() && !(lines[head].starts_with("send ") || lines[head].starts_with("bsend ") || lines[head] == "flush") {
+        head += 1;
+    }
+    let mut units = vec![];
+    let mut cur = 0;
+    for l in &lines[head..] {
+        cur += 1;
+        if l.starts_with("send ") || l == "flush" {
+            units.push(cur);
+            cur = 0;
+        }
+    }
+    (head, units)
+}
+
+fn emit_case(out: &mut Out, sub: &str, spec_of: &dyn Fn(usize) -> String, lines: &[String], first: CaseOutcome) {
+    match first {
+        CaseOutcome::Done(rep) => rep.emit(out),
+        died => {
+            // the router (or anything else) panicked and took the process with it: find the
+            // longest prefix of the case that survives, report the panic for the next unit
+            let (line, ident) = died_ident(&died);
+            let site = match &died {
+                CaseOutcome::Died { panic_site: Some((file, ln, _)), .. } => panic_site_name(file, &source_line_text(file, *ln)),
+                CaseOutcome::Died { hung: true, .. } => "hang".to_string(),
+                _ => "died".to_string(),
+            };
+            let (head, units) = layout(lines);
+            let mut survived: Option<(usize, CaseReport)> = None;
+            let hung = matches!(&died, CaseOutcome::Died { hung: true, .. });
+            for upto in (0..if hung { 0 } else { units.len() }).rev() {
+                let o = run_cases(sub, &[spec_of(upto)], 1, 1, 120);
+                if let Some(CaseOutcome::Done(rep)) = o.into_iter().next() {
+                    survived = Some((upto, rep));
+                    break;
+                }
+            }
+            let (upto, rep) = survived.unwrap_or((0, CaseReport::default()));
+            if rep.lines.is_empty() {
+                for l in &lines[..head] {
+                    out.line(l, l.split_whitespace().next().unwrap_or(""));
+                }
+            } else {
+                rep.emit(out);
+            }
+            // the unit that killed the process, then the rest of the case
+            let mut at = head + units[..upto].iter().sum::<usize>();
+            for (ui, n) in units.iter().enumerate().skip(upto) {
+                for k in 0..*n {
+                    let l = &lines[at + k];
+                    let last = k + 1 == *n;
+                    let ans = if !last { "q".to_string() } else if ui == upto { site.clone() } else { "dead".to_string() };
+                    out.line(l, &ans);
+                }
+                at += n;
+            }
+            out.count("cases.panicked");
+            let killer = if upto < units.len() { lines.get(head + units[..=upto].iter().sum::<usize>() - 1).cloned().unwrap_or_default() } else { String::new() };
+            out.fail(&format!("the simulation process ended while forwarding ({}); the unit that triggers it: `{}`", line, killer), &ident);
+        }
+    }
+}
+
+/// hand-written scenarios that always run: two subnets, one router
+fn fixed_cases() -> Vec<Vec<String>> {
+    let topo = |mtus: &str| -> Vec<String> {
+        vec![
+            format!("topo nets=2 mtus={} lat=1000,1000 clean=1", mtus),
+            "host 0 net=0 mac=0 ip=10.0.0.10 mask=24 gw=10.0.0.1 port=5000".into(),
+            "host 1 net=1 mac=0 ip=10.0.1.10 mask=24 gw=10.0.1.1 port=5001".into(),
+            "router 2 slots=0:1:10.0.0.1,1:1:10.0.1.1 routes=10.0.0.0/24/-/0;10.0.1.0/24/-/1".into(),
+        ]
+    };
+    let raw = |tok: u32, ttl: u8, dlen: usize, expect: &str| -> String {
+        let mut data = vec![(tok >> 8) as u8, tok as u8];
+        data.resize(dlen, 0x5a);
+        let src = parse_addr("10.0.0.10").unwrap();
+        let dst = parse_addr("10.0.1.10").unwrap();
+        let mut pay = build_udp_header(Ipv4Address::from(src), 4000, Ipv4Address::from(dst), 5001, data.iter().cloned(), data.len()).unwrap();
+        pay.extend_from_slice(&data);
+        format!("send tok={} h=0 kind=raw src=10.0.0.10 dst=10.0.1.10 ttl={} proto=17 id={} tos=0 flags=0 off=0 pay={} expect={}", tok, ttl, 1000 + tok, hex(&pay), expect)
+    };
+    // F-C16-1: TTL 0, 1, 2 in turn; only the last one may (and must) arrive
+    let mut a = topo("65535,65535");
+    a.push(raw(1, 0, 4, "-"));
+    a.push(raw(2, 1, 4, "-"));
+    a.push(raw(3, 2, 4, "1"));
+    // F-C16-2: a 100-byte datagram from the 1500-byte network towards the 60-byte network
+    let mut b = topo("1500,60");
+    b.push(raw(1, 9, 4, "1"));
+    b.push(raw(2, 9, 72, "-"));
+    vec![a, b]
+}
 
 pub fn run(args: &Args) {
-    eprintln!("hfull: {} not implemented yet", args.prop);
-    std::process::exit(2);
+    if is_worker(args) {
+        worker_loop(worker_case);
+        return;
+    }
+    let mut out = Out::new(&args.out);
+    out.max_failures = 40;
+    if let Some(rp) = &args.replay {
+        // a replay file holds the op lines of one or more cases
+        let mut cases: Vec<Vec<String>> = vec![];
+        for l in read_ops(rp) {
+            if l.starts_with("case ") || cases.is_empty() {
+                cases.push(vec![]);
+            }
+            if !l.starts_with("case ") {
+                cases.last_mut().unwrap().push(l);
+            }
+        }
+        for (ci, lines) in cases.iter().enumerate() {
+            if lines.is_empty() {
+                continue;
+            }
+            out.begin_case(ci as u64);
+            let body = lines.join("\n");
+            let spec_of = |upto: usize| format!("replay {}\n{}", upto, body);
+            let first = run_cases(&args.prop, &[spec_of(usize::MAX)], 1, 1, 120).into_iter().next().unwrap();
+            emit_case(&mut out, &args.prop, &spec_of, lines, first);
+            out.end_case();
+        }
+        out.finish(RULE);
+        return;
+    }
+    // fixed scenarios first: the TTL-0 datagram of F-C16-1 (fixed), the MTU step of F-C16-2 (known)
+    let mut ci = 0u64;
+    for lines in fixed_cases() {
+        out.begin_case(ci);
+        let body = lines.join("\n");
+        let spec_of = |upto: usize| format!("replay {}\n{}", upto, body);
+        let first = run_cases(&args.prop, &[spec_of(usize::MAX)], 1, 1, 120).into_iter().next().unwrap();
+        emit_case(&mut out, &args.prop, &spec_of, &lines, first);
+        out.end_case();
+        ci += 1;
+    }
+    let mut rng = Rng::new(args.seed);
+    let seeds: Vec<u64> = (0..args.cases).map(|_| rng.next() >> 1).collect();
+    let specs: Vec<String> = seeds.iter().map(|s| format!("gen {} {}", s, usize::MAX)).collect();
+    let outcomes = run_cases(&args.prop, &specs, default_workers(), 20, 60);
+    for (o, seed) in outcomes.into_iter().zip(seeds.iter()) {
+        out.begin_case(ci);
+        ci += 1;
+        let lines = gen_case(&mut Rng::new(*seed)).to_lines();
+        let spec_of = |upto: usize| format!("gen {} {}", seed, upto);
+        emit_case(&mut out, &args.prop, &spec_of, &lines, o);
+        out.end_case();
+    }
+    out.finish(RULE);
 }
